@@ -609,9 +609,22 @@ def runGpsdTx (dev data reply : String) : String :=
     else s!"cmd={cmd} ok={Ubx.Gpsd.transmitOk (.data [79, 75])}"     -- the reply "OK" was read before the failing call
   else s!"cmd={cmd} ok={Ubx.Gpsd.transmitOk (.data (parseHex reply))}"
 
+/-- `cid|c:i`: `UbxCID` equality, membership, hash and dictionary lookup against the grid the harness uses — in the model
+    a class/id is a pair with decidable equality -/
+def cidGrid : List Cid :=
+  ([0, 1, 2, 3, 4, 5, 6, 8, 0x0a, 0x0c, 0x10, 0x13, 0x14, 0x28, 0x62, 0xb5, 0xff] : List Nat).flatMap fun c =>
+    ([0, 1, 2, 3, 4, 7, 8, 9, 0x10, 0x14, 0x3e, 0x60, 0x62, 0xff] : List Nat).map fun i => ⟨c, i⟩
+def runCid (arg : String) : String :=
+  let a := parseCid arg
+  let eqs := ",".intercalate ((cidGrid.filter (· == a)).map fun b => s!"{b.cls}:{b.id}")
+  let ins := ",".intercalate ((cidGrid.filter fun b => [b].contains a).map fun b => s!"{b.cls}:{b.id}")
+  let got := match cidGrid.find? (· == a) with | some b => s!"{b.cls}:{b.id}" | none => "missing"
+  s!"eq={eqs} ne={eqs} in={ins} hashdiff=- dict={got} size={cidGrid.eraseDups.length} same=True fields={a.cls}:{a.id}"
+
 def handle (line : String) : String :=
   match line.trim.splitOn "|" with
   | ["ubx", ops] => runUbx ops
+  | ["cid", a] => runCid a
   | ["nmea", ops] => runNmea ops
   | "srv" :: rest => runSrv rest
   | ["specscan", h] => runSpecScan h
